@@ -96,3 +96,25 @@ class LiteralTypeHint(TypeHint):
             #     True
             super()._is_subhint(other)
         )
+
+
+    def _is_subhint_branch(self, branch: TypeHint) -> bool:
+
+        # If that branch is also a literal, return true only if the set of all
+        # child hints subscripting this literal is a subset of the set of all
+        # child hints subscripting that literal.
+        #
+        # Note that the superclass implementation of this method erroneously
+        # treats *ALL* literals as subhints of one another (e.g., "Literal['a']
+        # <= Union[Literal['b'], None]"), as literals are subscripted by
+        # arbitrary objects rather than child hints.
+        if isinstance(branch, LiteralTypeHint):
+            return self._is_subhint(branch)
+        # Else, that branch is *NOT* also a literal.
+
+        # Return true only if the class of each child hint subscripting this
+        # literal is a subhint (e.g., subclass) of that branch.
+        return all(
+            TypeHint(type(literal_child)).is_subhint(branch)  # pyright: ignore
+            for literal_child in self._args
+        )
